@@ -12,6 +12,14 @@ use std::time::Duration;
 /// Spawn the watchdog: a case running longer than CASE_TIMEOUT_MS, or a worker that blew the
 /// allocation cap, is reported as a violation of `prop` (with a replay file) and the process exits 1.
 pub fn spawn_watchdog(prop: &'static str, tier: run::Tier, seed: u64, verif_dir: String, is_replay: bool) {
+    // a case that has been "running" for CASE_TIMEOUT_MS of wall-clock time is only a suspect: the machine may have
+    // been paused, or the worker starved by other load. It becomes a verdict when the same case goes on to burn
+    // CASE_CPU_CONFIRM_MS of CPU time on its own thread (a loop that does not end), or stays put for CASE_WALL_MAX_MS
+    // (a thread that blocks for good)
+    const CASE_CPU_CONFIRM_MS: u64 = 10_000;
+    const CASE_WALL_MAX_MS: u64 = 900_000;
+    // (worker, start stamp of the suspected case, the worker's CPU time when it was first suspected)
+    let mut suspect: Option<(usize, u64, Option<u64>)> = None;
     std::thread::spawn(move || loop {
         std::thread::sleep(Duration::from_millis(100));
         let blown = guard::BLOWN.load(std::sync::atomic::Ordering::SeqCst);
@@ -24,7 +32,33 @@ pub fn spawn_watchdog(prop: &'static str, tier: run::Tier, seed: u64, verif_dir:
             let (sid, idx) = guard::crumb_of(blown - 1);
             Some((sid, idx, "runaway-allocation", format!("live heap exceeded the cap ({} bytes live)", guard::live_alloc())))
         } else {
-            guard::stuck_case(run::CASE_TIMEOUT_MS).map(|(_, sid, idx, ms)| (sid, idx, "non-termination", format!("a single case has been running for {} ms", ms)))
+            match guard::stuck_case(run::CASE_TIMEOUT_MS) {
+                None => {
+                    suspect = None;
+                    None
+                }
+                Some((w, sid, idx, ms)) => {
+                    let stamp = guard::crumb_start_of(w);
+                    let cpu = guard::worker_cpu_ms(w);
+                    match suspect {
+                        Some((sw, sstamp, scpu)) if sw == w && sstamp == stamp && stamp != 0 => {
+                            let burnt = match (cpu, scpu) {
+                                (Some(a), Some(b)) => a.saturating_sub(b),
+                                _ => 0,
+                            };
+                            if burnt >= CASE_CPU_CONFIRM_MS || ms >= CASE_WALL_MAX_MS || (cpu.is_none() && ms >= 3 * run::CASE_TIMEOUT_MS) {
+                                Some((sid, idx, "non-termination", format!("a single case has been running for {} ms of wall-clock time, {} ms of CPU time of them since it was first suspected", ms, burnt)))
+                            } else {
+                                None
+                            }
+                        }
+                        _ => {
+                            suspect = Some((w, stamp, cpu));
+                            None
+                        }
+                    }
+                }
+            }
         };
         if let Some((sid, idx, kind, detail)) = verdict {
             guard::set_alloc_cap(usize::MAX);
